@@ -3,12 +3,16 @@ package main
 import (
 	"encoding/json"
 	"fmt"
+	"math/big"
 	"math/rand"
+	"sort"
 
 	"github.com/canopy-network/canopy/fsm"
 	"github.com/canopy-network/canopy/lib"
+	"github.com/canopy-network/canopy/lib/crypto"
 	"github.com/canopy-network/canopy/store"
 	"google.golang.org/protobuf/encoding/protowire"
+	"google.golang.org/protobuf/proto"
 )
 
 // replay mode (specs/Replay.tla, property C06): a signed transfer is included once; afterwards every other byte string
@@ -112,6 +116,80 @@ func variants(tx []byte) map[string][]byte {
 	return v
 }
 
+// equivalent representations of the public key and of the signature inside the transaction (the signed content is the same:
+// the sign bytes do not cover the Signature field)
+var (
+	secpN, _ = new(big.Int).SetString("fffffffffffffffffffffffffffffffebaaedce6af48a03bbfd25e8cd0364141", 16)
+	edL, _   = new(big.Int).SetString("1000000000000000000000000000000014def9dea2f79cd65812631a5cf5d3ed", 16)
+)
+
+func sigVariants(txBz []byte, keyType string) map[string][]byte {
+	out := map[string][]byte{}
+	with := func(name string, f func(t *lib.Transaction) bool) {
+		t := new(lib.Transaction)
+		if lib.Unmarshal(txBz, t) != nil || t.Signature == nil {
+			return
+		}
+		t.Signature = &lib.Signature{PublicKey: append([]byte{}, t.Signature.PublicKey...), Signature: append([]byte{}, t.Signature.Signature...)}
+		if !f(t) {
+			return
+		}
+		if bz, e := lib.Marshal(t); e == nil && string(bz) != string(txBz) {
+			out[name] = bz
+		}
+	}
+	switch keyType {
+	case "ethsecp256k1":
+		with("pubkey-sec1-prefixed", func(t *lib.Transaction) bool { // 64 raw bytes <-> 0x04 || X || Y
+			if len(t.Signature.PublicKey) != 64 {
+				return false
+			}
+			t.Signature.PublicKey = append([]byte{0x04}, t.Signature.PublicKey...)
+			return true
+		})
+		fallthrough
+	case "secp256k1":
+		with("signature-high-s", func(t *lib.Transaction) bool { // (r, s) -> (r, n - s)
+			sg := t.Signature.Signature
+			if len(sg) != 64 {
+				return false
+			}
+			sNew := new(big.Int).Sub(secpN, new(big.Int).SetBytes(sg[32:]))
+			sNew.FillBytes(sg[32:])
+			return true
+		})
+		with("signature-with-recovery-id", func(t *lib.Transaction) bool {
+			t.Signature.Signature = append(t.Signature.Signature, 0)
+			return true
+		})
+	case "ed25519":
+		with("signature-s-plus-l", func(t *lib.Transaction) bool { // S -> S + L (little endian scalar)
+			sg := t.Signature.Signature
+			if len(sg) != 64 {
+				return false
+			}
+			le := make([]byte, 32)
+			for i := range le {
+				le[i] = sg[63-i]
+			}
+			sNew := new(big.Int).Add(new(big.Int).SetBytes(le), edL)
+			if sNew.BitLen() > 256 {
+				return false
+			}
+			sNew.FillBytes(le)
+			for i := range le {
+				sg[63-i] = le[i]
+			}
+			return true
+		})
+	}
+	with("signature-trailing-byte", func(t *lib.Transaction) bool {
+		t.Signature.Signature = append(t.Signature.Signature, 0)
+		return keyType == "bls" || keyType == "ed25519"
+	})
+	return out
+}
+
 func replayMode(seed int64, runs int, out *json.Encoder) error {
 	rng := rand.New(rand.NewSource(seed))
 	for r := 0; r < runs; r++ {
@@ -187,6 +265,97 @@ func replayMode(seed int64, runs int, out *json.Encoder) error {
 			// after a few more blocks the exact bytes again (later heights inside the window)
 			offer(-1, "none", false, nil, 0)
 			offer(content, "exact-later", false, orig, amt)
+		}
+		// senders with the other key types: besides the protobuf re-encodings, equivalent key / signature representations
+		seedKey := func(tag byte) []byte { b := make([]byte, 32); b[0], b[31] = tag, byte(1+r); return b }
+		secp, _ := crypto.BytesToSECP256K1Private(seedKey(0x51))
+		eth, _ := crypto.BytesToEthSECP256K1Private(seedKey(0x52))
+		alt := []struct {
+			typ string
+			key crypto.PrivateKeyI
+		}{{"ed25519", n.accKeys[2]}, {"secp256k1", secp}, {"ethsecp256k1", eth}, {"bls", n.valKeys[2]}}
+		for _, a := range alt {
+			if a.key == nil {
+				continue
+			}
+			if a.typ == "secp256k1" || a.typ == "ethsecp256k1" { // fund the new account
+				if tx, e := fsm.NewSendTransaction(n.accKeys[0], a.key.PublicKey().Address(), 20000, 1, 1, 100, n.height(), a.typ); e == nil {
+					bz, _ := lib.Marshal(tx)
+					offer(-1, "none", false, bz, 0)
+				}
+			}
+			content++
+			amt := uint64(1500 + 13*content + rng.Intn(5))
+			tx, e := fsm.NewSendTransaction(a.key, recip, amt, 1, 1, 100, n.height(), "")
+			if e != nil {
+				continue
+			}
+			orig, _ := lib.Marshal(tx)
+			offer(content, "original-"+a.typ, true, orig, amt)
+			vs := sigVariants(orig, a.typ)
+			pv := variants(orig)
+			vs["fields-reversed"], vs["exact"] = pv["fields-reversed"], pv["exact"]
+			var names []string
+			for name := range vs {
+				names = append(names, name)
+			}
+			sort.Strings(names)
+			rng.Shuffle(len(names), func(i, j int) { names[i], names[j] = names[j], names[i] })
+			for _, name := range names {
+				if vs[name] != nil {
+					offer(content, name, false, vs[name], amt)
+				}
+			}
+		}
+		// a 2-of-3 multisig account: what a third party can derive from an included transaction without any key
+		{
+			ms := newMulti()
+			msAddr := crypto.NewAddressFromBytes(ms.address(2))
+			if tx, e := fsm.NewSendTransaction(n.accKeys[0], msAddr, 20000, 1, 1, 100, n.height(), "multisig"); e == nil {
+				bz, _ := lib.Marshal(tx)
+				offer(-1, "none", false, bz, 0)
+			}
+			content++
+			amt := uint64(1500 + 13*content + rng.Intn(5))
+			if txI, e := fsm.NewSendTransaction(n.accKeys[0], recip, amt, 1, 1, 100, n.height(), ""); e == nil {
+				tx := txI.(*lib.Transaction)
+				msg := new(fsm.MessageSend)
+				_ = tx.Msg.UnmarshalTo(msg)
+				msg.FromAddress = msAddr.Bytes()
+				tx.Msg, _ = lib.NewAny(msg)
+				ms.signWith(tx, []int{0, 2}, 2, nil)
+				orig, _ := lib.Marshal(tx)
+				offer(content, "original-multisig", true, orig, amt)
+				vs := map[string][]byte{"exact": orig}
+				mpk := new(crypto.MultiPublicKey)
+				if proto.Unmarshal(tx.Signature.PublicKey, mpk) == nil && len(mpk.PublicKeys) == 3 {
+					re := func(name string, f func(m *crypto.MultiPublicKey)) {
+						m2 := proto.Clone(mpk).(*crypto.MultiPublicKey)
+						f(m2)
+						pk, _ := proto.Marshal(m2)
+						t2 := proto.Clone(tx).(*lib.Transaction)
+						t2.Signature.PublicKey = pk
+						if bz, e := lib.Marshal(t2); e == nil {
+							vs[name] = bz
+						}
+					}
+					// keys 0 and 2 signed (bits 0 and 2): swap the positions of keys 0 and 2 - the bitmap stays the same
+					re("multisig-keys-permuted", func(m *crypto.MultiPublicKey) { m.PublicKeys[0], m.PublicKeys[2] = m.PublicKeys[2], m.PublicKeys[0] })
+					re("multisig-bitmap-padded", func(m *crypto.MultiPublicKey) { m.Bitmap = append(m.Bitmap, 0) })
+					re("multisig-nonsigner-moved", func(m *crypto.MultiPublicKey) { // signers to the front, bitmap rewritten
+						m.PublicKeys[1], m.PublicKeys[2] = m.PublicKeys[2], m.PublicKeys[1]
+						m.Bitmap = []byte{m.Bitmap[0]&^0b101 | 0b011}
+					})
+				}
+				var names []string
+				for name := range vs {
+					names = append(names, name)
+				}
+				sort.Strings(names)
+				for _, name := range names {
+					offer(content, name, false, vs[name], amt)
+				}
+			}
 		}
 		// content signed for another chain / another network, and outside the creation-height window: never executes
 		content++
